@@ -72,6 +72,7 @@ static void mcx_viol(const char * sig, const char * fmt, ...) {
 
 static void mcx_grow(mcx_t * m) {
     size_t ncap = m->cap ? m->cap * 2 : 1024;
+    mc_alive++;
     m->keys = (unsigned char *) realloc(m->keys, ncap * m->key_size);
     if (m->snap_size) m->snaps = (unsigned char *) realloc(m->snaps, ncap * m->snap_size);
     m->parent = (uint32_t *) realloc(m->parent, ncap * sizeof (uint32_t));
@@ -88,6 +89,7 @@ static void mcx_rehash(mcx_t * m) {
     for (i = 0; i < m->states; i++) {
         uint64_t h = mc_hash(m->keys + i * m->key_size, m->key_size, 0);
         size_t j = (size_t) (h & (ntcap - 1));
+        if ((i & 0xffff) == 0) mc_alive++;
         while (nt[j]) j = (j + 1) & (ntcap - 1);
         nt[j] = (uint32_t) i + 1;
     }
